@@ -2,30 +2,40 @@
 # channel, after rotating the ring by `prefix` give+take pairs. Oracle: a plain array queue.
 (use prelude)
 
+# heap mode: the values are fresh buffers that only the channel refers to (the oracle keeps their text), and a
+# collection followed by same-sized garbage runs after every operation: a queued value must survive in the ring
+(var heap-mode false)
+(defn- mk [v] (if heap-mode (buffer "value-" v "-" (string/repeat "z" 20)) v))
+(defn- settle []
+  (when heap-mode
+    (gccollect)
+    (repeat 4 (buffer "trash-" 12345 "-" (string/repeat "q" 20)))))
+(defn- same [got want] (if heap-mode (and (buffer? got) (= (string got) (string (mk want)))) (= got want)))
+
 (defn run-seq [cap prefix bits n]
   (def c (ev/chan cap))
   (def q @[])
   (var next-v 0)
   (var bad nil)
   (repeat prefix
-    (ev/give c next-v) (array/push q next-v) (++ next-v)
+    (ev/give c (mk next-v)) (array/push q next-v) (++ next-v) (settle)
     (def got (ev/take c))
     (def want (first q)) (array/remove q 0)
-    (unless (= got want) (set bad [:prefix got want])))
+    (unless (same got want) (set bad [:prefix got want])))
   (for i 0 n
     (if (= 1 (band 1 (brshift bits i)))
       (when (< (length q) cap)
-        (ev/give c next-v) (array/push q next-v) (++ next-v))
+        (ev/give c (mk next-v)) (array/push q next-v) (++ next-v) (settle))
       (when (> (length q) 0)
         (def got (ev/take c))
         (def want (first q)) (array/remove q 0)
-        (unless (= got want) (set bad [:take i got want]))))
+        (unless (same got want) (set bad [:take i got want])) (settle)))
     (unless (= (ev/count c) (length q)) (set bad [:count i (ev/count c) (length q)])))
   # drain
   (while (> (length q) 0)
     (def got (ev/take c))
     (def want (first q)) (array/remove q 0)
-    (unless (= got want) (set bad [:drain got want])))
+    (unless (same got want) (set bad [:drain got want])))
   bad)
 
 (batch-run
@@ -33,6 +43,7 @@
     (def cap (item :cap))
     (def prefix (item :prefix))
     (def n (item :len))
+    (set heap-mode (truthy? (get item :heap)))
     (var count 0)
     (var firstbad nil)
     (for bits 0 (blshift 1 n)
